@@ -44,6 +44,16 @@ def plan(tier, seed):
             for i in range(0, len(pens), size):
                 shards.append(dict(name="%s/%s/%d" % (solver, df, i // size), solver=solver, datafit=df,
                                    penalties=pens[i:i + size], reps=REPS[tier]))
+    # "straddle" scenarios: many more units than the first working set (p0=1) and only 1-3 epochs per outer iteration
+    # with a large number of outer iterations, so that Anderson histories, extrapolations and early exits fall across
+    # working-set changes and the run still reaches its tolerance
+    for solver in ("AndersonCD", "GroupBCD", "MultiTaskBCD", "ProxNewton", "GroupProxNewton"):
+        info = K.SOLVER_INFO[solver]
+        for df in info["datafits"]:
+            pens = [p for p in info["penalties"] if any(
+                K.compatible(solver, df, p, "dense", False, st) for st in info["strategies"])]
+            shards.append(dict(name="straddle/%s/%s" % (solver, df), solver=solver, datafit=df, penalties=pens[:4],
+                               reps={"quick": 3, "thorough": 25}[tier], straddle=True))
     return shards
 
 
@@ -106,6 +116,18 @@ def run_shard(spec, emit):
                 continue
             rng = rng_for("C01", seed, solver, str(df), pen, rep)
             cs = gen_spec(rng, solver, df, pen, seed, [solver, str(df), pen, rep])
+            if spec.get("straddle"):
+                cid = "straddle/" + cid
+                info = K.SOLVER_INFO[solver]
+                b_it, b_ep = (info["budget"] + (None,))[:2]
+                cs.update(n=int(rng.integers(40, 90)), p=int(rng.integers(90, 260)), size="wide", warm="cold",
+                          alpha_frac=float(rng.choice([0.05, 0.15, 0.3])))
+                cs["knobs"].update({"tol": float(rng.choice([1e-6, 1e-8])), "p0": 1, b_it: 600})
+                if b_ep:
+                    cs["knobs"][b_ep] = int(rng.integers(1, 4)) if b_ep == "max_epochs" else int(rng.integers(1, 3))
+                if solver == "MultiTaskBCD":
+                    cs["knobs"]["max_epochs"] = 11          # (smaller budgets: see gen_spec)
+                    cs["knobs"]["use_acc"] = True
             run_case(emit, cid, cs, sample=(rep == 0 and pen == spec["penalties"][0]))
 
 
